@@ -1,0 +1,9 @@
+//go:build !verif
+
+package server
+
+// gate and routerHook are no-ops unless the package is built with the "verif"
+// build tag.
+func gate(op string, key string) {}
+
+func routerHook(op string, id any, ch any) {}
